@@ -141,11 +141,12 @@ type Rig struct {
 	byGo     map[int64]int // handler goroutine -> connection id
 	rtGate   map[int]chan struct{}
 	wrGate   map[int]chan struct{}
+	allGate  map[int]chan struct{} // holds EVERY write on the connection (e.g. the TLS close_notify of the handler's Close)
 	expectWr map[int]bool
 }
 
 func NewRig() *Rig {
-	return &Rig{Log: NewLog(), byGo: map[int64]int{}, rtGate: map[int]chan struct{}{}, wrGate: map[int]chan struct{}{}, expectWr: map[int]bool{}}
+	return &Rig{Log: NewLog(), byGo: map[int64]int{}, rtGate: map[int]chan struct{}{}, wrGate: map[int]chan struct{}{}, allGate: map[int]chan struct{}{}, expectWr: map[int]bool{}}
 }
 
 // GateRT makes the next round trip / CONNECT dial of connection id wait for ReleaseRT.
@@ -160,6 +161,23 @@ func (r *Rig) ReleaseRT(id int) {
 	if ch, ok := r.rtGate[id]; ok {
 		close(ch)
 		delete(r.rtGate, id)
+	}
+	r.mu.Unlock()
+}
+
+// GateAllWrites makes every write on connection id wait for ReleaseAllWrites (or for the socket
+// being closed); the first held write is recorded as WrHeld.
+func (r *Rig) GateAllWrites(id int) {
+	r.mu.Lock()
+	r.allGate[id] = make(chan struct{})
+	r.mu.Unlock()
+}
+
+func (r *Rig) ReleaseAllWrites(id int) {
+	r.mu.Lock()
+	if ch, ok := r.allGate[id]; ok {
+		close(ch)
+		delete(r.allGate, id)
 	}
 	r.mu.Unlock()
 }
@@ -287,7 +305,15 @@ func (c *Conn) Write(b []byte) (int, error) {
 		r.expectWr[c.id] = false
 	}
 	gate := r.wrGate[c.id]
+	all := r.allGate[c.id]
 	r.mu.Unlock()
+	if all != nil {
+		r.Log.Add(Ev{K: "WrHeld", Conn: c.id})
+		select {
+		case <-all:
+		case <-c.closed:
+		}
+	}
 	if first {
 		r.Log.Add(Ev{K: "WrCall", Conn: c.id})
 		if gate != nil {
